@@ -242,6 +242,18 @@ class SymFile:
     def getvalue(self):
         return list(self.items)
 
+    def readable(self):
+        return True
+
+    def writable(self):
+        return True
+
+    def seekable(self):
+        return True
+
+    def __getattr__(self, name):
+        raise Unmodelled('file.%s is not modelled by the in-memory file double' % name)
+
 
 # --------------------------------------------------------------------------
 # struct
@@ -617,12 +629,18 @@ class FakeFile:
     def close(self):
         self.closed = True
 
+    def flush(self):
+        pass
+
     def __enter__(self):
         return self
 
     def __exit__(self, *a):
         self.close()
         return False
+
+    def __getattr__(self, name):
+        raise Unmodelled('file.%s is not modelled by the in-memory file double' % name)
 
 
 class FakeFS:
